@@ -185,6 +185,12 @@ def make_parse_case(text: str, tag: str) -> Case:
 def replay(inp: Any) -> Case:
     if "text" in inp:
         return make_parse_case(inp["text"], "replay")
+    if isinstance(inp, dict) and inp.get("kind") == "note":
+        return make_note_case(coqio.num_unjson(inp["k"]))
+    if isinstance(inp, dict) and inp.get("kind") == "svs":
+        return make_svs_case(coqio.num_unjson(inp["v"]), coqio.num_unjson(inp["k"]))
+    if isinstance(inp, dict) and inp.get("kind") in ("prop", "qty"):
+        return make_shown_case(inp["kind"], coqio.num_unjson(inp["v"]), inp["extra"])
     return make_case(coqio.num_unjson(inp))
 
 
@@ -300,6 +306,42 @@ def make_shown_case(kind: str, v: Any, extra: Any) -> Case:
     return c
 
 
+def _plain_number(html_text: str) -> str:
+    import html as H
+    return H.unescape(re.sub(r"<[^>]*>", "", html_text)).replace("\u2044", "/")
+
+
+def make_note_case(k: Any) -> Optional[Case]:
+    """The 'Scaled N x' note under a title without serving count shows the factor like every other number."""
+    from recipe_grid.markdown import compile_markdown
+    out = compile_markdown("# Plain title\n\n    1 egg\n").render(k)
+    m = re.search(r'<span class="rg-scaling-factor">(.*?)&times;\s*</span>', out, flags=re.S)
+    if m is None:
+        return Case(input={"kind": "note", "k": coqio.num_json(k)}, coq_in=coqio.num(k), coq_out=coqio.string(""), impl=out[:300],
+                    violation=f"no 'Scaled N x' note when rendering at factor {k!r}", nontrivial=True, tags=["note"])
+    shown = _plain_number(m.group(1)).strip()
+    viol = oracle(k, shown)
+    if viol:
+        viol = f"scaling note for factor {k!r} shows {shown!r}: " + viol
+    return Case(input={"kind": "note", "k": coqio.num_json(k), "true": coqio.num_json(k), "shown": shown}, coq_in=coqio.num(k), coq_out=coqio.string(shown), impl=shown,
+                violation=viol, nontrivial=True, tags=["note", type(k).__name__])
+
+
+def make_svs_case(v: Any, k: Any) -> Case:
+    """A number inside a scaled-value string (ingredient / step text, Markdown prose), scaled by k, as shown."""
+    from recipe_grid.scaled_value_string import ScaledValueString as SVS
+    from recipe_grid.renderer import html as RH
+    out = RH.render_scaled_value_string(SVS(["use ", v, " eggs"]).scale(k))
+    true = v * k
+    m = re.fullmatch(r'use (?:<span class="rg-scaled-value">(.*?)</span>)? eggs', out, flags=re.S)
+    shown = _plain_number(m.group(1) or "").strip() if m else out
+    viol = oracle(true, shown)
+    if viol:
+        viol = f"{v!r} scaled by {k!r} inside a string rendered as {out!r}: " + viol
+    return Case(input={"kind": "svs", "v": coqio.num_json(v), "k": coqio.num_json(k), "true": coqio.num_json(true), "shown": shown}, coq_in=coqio.num(true),
+                coq_out=coqio.string(shown), impl=out, violation=viol, nontrivial=True, tags=["svs", type(true).__name__])
+
+
 def suites(tier: str, seed: int) -> List[Suite]:
     sh_p = Suite(name="shownprop", imports=["From RG Require Import Model.Recipe Model.Units Model.Html Model.HtmlChecks."],
                  in_ty="proportion", out_ty="Units.res str", check="check_render_proportion", show="render_proportion")
@@ -315,8 +357,12 @@ def suites(tier: str, seed: int) -> List[Suite]:
         imports=["From RG Require Import Model.NumParse."],
         in_ty="str", out_ty="(option num)", check="check_parse", show="parse_number",
     )
+    sn = Suite(name="scalenote", imports=["From RG Require Import Model.NumFmt."], in_ty="num", out_ty="str", check="check_format",
+               show="format_number")
+    ss = Suite(name="shownsvs", imports=["From RG Require Import Model.NumFmt."], in_ty="num", out_ty="str", check="check_format",
+               show="format_number")
     if tier == "replay":
-        return [su, sp, sh_p, sh_q]
+        return [su, sp, sh_p, sh_q, sn, ss]
     rng = random.Random(seed * 7919 + 11)
     n = 3000 if tier == "quick" else 60000
     seen = set()
@@ -370,4 +416,29 @@ def suites(tier: str, seed: int) -> List[Suite]:
             sh_q.cases.append(make_shown_case("qty", a, ex))
         sh_p.cases.append(make_shown_case("prop", a, [False, " of the"]))
         sh_p.cases.append(make_shown_case("prop", b, [False, " of the"]))
-    return [su, sp, sh_p, sh_q]
+    # quantities in known units whose CONVERSIONS are >= 1000 / non-integral (the conversions list is compared string-exactly with
+    # the model: every number in it goes through the proved format_number)
+    rng3 = random.Random(seed * 101 + 3)
+    for _ in range(150 if tier == "quick" else 3000):
+        u = rng3.choice(["lb", "lbs", "cups", "kg", "oz", "pints", "tbsp", "l", "tsp", "g", "ml", "quart", "Kg", "TSP", "Tbsp",
+                         "tins", "Cloves", "Cans", "packs", "boxen", "PINCH", "Mug", "Handfuls", "big Sprigs"])
+        v = rng3.choice([rng3.randrange(1, 40), rng3.randrange(1, 4000), Fraction(rng3.randrange(1, 200), rng3.choice(ALLOWED)),
+                         rng3.randrange(1, 4000) / 8, round(rng3.random() * 3000, 2)])
+        try:
+            sh_q.cases.append(make_shown_case("qty", v, [u, rng3.choice(["", " "]), rng3.choice(["", " of"])]))
+        except (OverflowError, KeyError):
+            pass
+    for v, u in ((3, "lb"), (8, "cups"), (2.6, "lb"), (Fraction(7, 2), "lb"), (1000, "kg"), (999.5, "g"), (2999.5, "g")):
+        sh_q.cases.append(make_shown_case("qty", v, [u, " ", ""]))
+    sn.cases = [c for c in (make_note_case(k) for k in
+                            [2, 3, 10, Fraction(1, 3), Fraction(8, 3), Fraction(5, 4), Fraction(22, 7), 1 / 3, 2.6666, 1.23456, 2e-05, 0.5,
+                             1.5, 2.0, 1234.5678, 0.001234, 1e-3, 12345678.9] +
+                            [v for v in gen_values(random.Random(seed * 57 + 1), 150 if tier == "quick" else 3000) if 0 < v < 10 ** 12 and v != 1])
+                if c is not None]
+    zs = [0, 0.0, Fraction(0), 1, 0.5, Fraction(1, 3), 2.5, 1000, 0.004]
+    for v in zs:
+        for k in (1, 0, Fraction(1, 2), 3, 0.0):
+            ss.cases.append(make_svs_case(v, k))
+    for v in [x for x in gen_values(random.Random(seed * 59 + 2), 100 if tier == "quick" else 2000) if x < 10 ** 12]:
+        ss.cases.append(make_svs_case(v, 1))
+    return [su, sp, sh_p, sh_q, sn, ss]
